@@ -48,6 +48,7 @@ def run_history_observed(bt, spec, rng, nops, observers, ctx=None, key_prefix=""
     d = 0
     i = 0
     observed_last = True
+    closed = False
     pending = False   # mutations made with update=False that no update / stale mark has covered yet
     while True:
         if gen:
@@ -56,12 +57,20 @@ def run_history_observed(bt, spec, rng, nops, observers, ctx=None, key_prefix=""
             elif i == 1:
                 op = {"op": "update", "d": 0}
             elif i >= nops:
-                break
+                if (root.stale or pending) and not closed:
+                    closed = True
+                    op = {"op": "update", "d": d}   # closing update, as Backtest.run does
+                    ops.append(op)
+                else:
+                    break
             elif steps and steps[-1]["op"]["op"] not in ("read",) and not observed_last and rng.random() < 0.45:
                 op = {"op": "observe", "on": "real" if rng.random() < 0.75 else "copy"}
             else:
                 op = G.gen_op(rng, spec, root, d, T)
-            ops.append(op)
+                if op["op"] == "update" and op["d"] != d and (root.stale or pending):
+                    op = {"op": "update", "d": d}   # a date is closed by an update before the clock moves
+            if not closed:
+                ops.append(op)
         else:
             if i >= len(ops):
                 break
@@ -91,7 +100,7 @@ def run_history_observed(bt, spec, rng, nops, observers, ctx=None, key_prefix=""
         try:
             E.exec_op(bt, root, dates, op)
         except Exception as e:  # noqa
-            steps.append({"pre": pre, "op": op, "err": E.classify_exc(e), "msg": str(e)[:200]})
+            steps.append({"pre": pre, "op": op, "err": E.classify_exc(e), "msg": str(e)[:200], "opi": i, "pending": pending})
             break
         post = E.snap_world(bt, root)
         E.fill_paper(pre["root"], post["root"])
@@ -101,7 +110,7 @@ def run_history_observed(bt, spec, rng, nops, observers, ctx=None, key_prefix=""
             pending = True
         elif op["op"] == "read" and not post["stale"] and pre["stale"]:
             pending = False
-        st = {"pre": pre, "op": op, "post": post, "pending": pending}
+        st = {"pre": pre, "op": op, "post": post, "pending": pending, "opi": i}
         steps.append(st)
         if op["op"] == "update":
             d = op["d"]
@@ -186,6 +195,9 @@ def run_engine_protocol(ctx, bt, n_hist, observers, footprint_fields=None, footp
             spec = G.gen_spec(ctx.rng, ctx.tier, **(spec_kwargs or {}))
             if spec_mutator:
                 spec_mutator(ctx.rng, spec)
+            elif ctx.rng.random() < 0.25:
+                G.scripted_hold(ctx.rng, spec)
+                ctx.count("histories:scripted-hold")
         else:
             spec = copy.deepcopy(sp)
         n = ctx.rng.randint(*nops)
@@ -203,3 +215,124 @@ def run_engine_protocol(ctx, bt, n_hist, observers, footprint_fields=None, footp
     n, nd = model_compare(ctx, bt, batch, footprint_fields, footprint_ops, corr_name)
     ctx.protocols.append((corr_name, n, nd))
     return batch
+
+
+def continuation_search(ctx, bt, make_observers, max_cases=12, extra_random=3):
+    """Failing-input search in the neighbourhood of the steps on which model and implementation disagree:
+    the history prefix up to the disagreeing step is replayed on the real code and continued with a small
+    library of follow-ups (undo the trade back to the last recorded position, repeat, close, closing update,
+    next date, a few random operations); the property's monitors observe each continuation."""
+    tried = 0
+    seen = set()
+    for dg in list(ctx.disagreements):
+        if tried >= max_cases or ctx.violations:
+            break
+        rd = dg["replay_data"]
+        if not isinstance(rd, dict) or "spec" not in rd or "step_index" not in rd:
+            continue
+        spec0 = rd["spec"]
+        # locate the op index of the disagreeing step
+        key = (id(spec0), rd["step_index"])
+        if key in seen:
+            continue
+        seen.add(key)
+        try:
+            base = copy.deepcopy({k: v for k, v in spec0.items()})
+            steps, root, dates = run_history_observed(bt, copy.deepcopy(base), ctx.rng, len(base["ops"]), [], None)
+        except Exception:
+            continue
+        if rd["step_index"] >= len(steps):
+            continue
+        st = steps[rd["step_index"]]
+        opi = st["opi"]
+        op = st["op"]
+        prefix = base["ops"][: opi + 1]
+        # state right after the disagreeing step (replay the prefix only)
+        sp = copy.deepcopy(base)
+        sp["ops"] = list(prefix)
+        try:
+            psteps, proot, pdates = run_history_observed(bt, sp, ctx.rng, len(prefix), [], None)
+        except Exception:
+            continue
+        d = 0
+        for s2 in psteps:
+            if s2["op"]["op"] == "update" and "err" not in s2:
+                d = s2["op"]["d"]
+        T = base["T"]
+        nxt = [{"op": "update", "d": d}] + ([{"op": "update", "d": d + 1}] if d + 1 < T else [])
+        conts = [list(nxt)]
+        path = op.get("path")
+        if path is not None:
+            try:
+                node = E.node_at(proot, path)
+            except Exception:
+                node = None
+            if node is not None and hasattr(node, "_last_pos"):
+                back = node._last_pos - node._position
+                if back != 0:
+                    conts.append([{"op": "transact", "path": path, "q": back, "update": False, "price": None}] + nxt)
+                    conts.append([{"op": "transact", "path": path, "q": back, "update": True, "price": None}] + nxt)
+                if node._position != 0:
+                    conts.append([{"op": "transact", "path": path, "q": -node._position, "update": True, "price": None}] + nxt)
+                if node._value == node._value:
+                    conts.append([{"op": "allocate", "path": path, "amount": -node._value, "update": True}] + nxt)
+            if path:
+                conts.append([{"op": "close", "path": path[:-1], "child": path[-1], "update": True}] + nxt)
+            rep = dict(op)
+            conts.append([rep] + nxt)
+        for _ in range(extra_random):
+            conts.append(None)
+        for cont in conts:
+            sp = copy.deepcopy(base)
+            if cont is None:
+                sp["ops"] = None
+                sp2 = copy.deepcopy(base)
+                sp2["ops"] = list(prefix)
+                # random continuation: replay prefix then generate
+                obs = make_observers()
+                spx = copy.deepcopy(base)
+                spx["ops"] = list(prefix)
+                _continue_random(bt, spx, ctx, obs)
+            else:
+                sp["ops"] = list(prefix) + cont + [{"op": "observe", "on": "real"}]
+                try:
+                    run_history_observed(bt, sp, ctx.rng, len(sp["ops"]), make_observers(), ctx)
+                except Exception:
+                    ctx.count("search:continuation-crashed")
+            ctx.count("search:continuations")
+            tried += 1
+            if ctx.violations:
+                break
+
+
+def _continue_random(bt, spec, ctx, observers, extra=10):
+    """replay spec['ops'] then append `extra` generated operations (recorded into spec['ops'])"""
+    prefix = list(spec["ops"])
+    root, dates = G.build(bt, spec)
+    # generate the tail on a scratch run, then replay everything with observers
+    import random as _r
+    rng = _r.Random(ctx.rng.random())
+    d = 0
+    try:
+        for op in prefix:
+            if op["op"] == "observe":
+                continue
+            E.exec_op(bt, root, dates, op)
+            if op["op"] == "update":
+                d = op["d"]
+        tail = []
+        for _ in range(extra):
+            op = G.gen_op(rng, spec, root, d, spec["T"])
+            if op["op"] == "update" and op["d"] != d and root.stale:
+                op = {"op": "update", "d": d}
+            tail.append(op)
+            E.exec_op(bt, root, dates, op)
+            if op["op"] == "update":
+                d = op["d"]
+    except Exception:
+        pass
+    spec["ops"] = prefix + tail + [{"op": "update", "d": d}, {"op": "observe", "on": "real"}]
+    try:
+        run_history_observed(bt, spec, ctx.rng, len(spec["ops"]), observers, ctx)
+    except Exception:
+        ctx.count("search:continuation-crashed")
